@@ -224,12 +224,26 @@ class NamespaceMapper(MutableMapping[str, str]):
                     {k: v for k, v in self._reverse.items()},
                 )
                 self._xmlns_contexts.append(context)
+                shadowed = [self.namespaces[k] for k, v in xmlns
+                            if k in self.namespaces and self.namespaces[k] != v]
                 self.namespaces.update(xmlns)
                 if level:
                     self._reverse.update((v, k and k + ':') for k, v in xmlns)
                 else:
                     self._reverse.update((v, k and k + ':') for k, v in reversed(xmlns)
                                          if v not in self._reverse)
+
+                for uri in shadowed:
+                    # A redeclared prefix cannot be used anymore for the shadowed namespace
+                    prefix = self._reverse.get(uri)
+                    if prefix is None or self.namespaces.get(prefix[:-1]) == uri:
+                        continue
+                    for k, v in self.namespaces.items():
+                        if v == uri:
+                            self._reverse[uri] = k and k + ':'
+                            break
+                    else:
+                        del self._reverse[uri]
                 return xmlns
 
             elif not level or self.xmlns_processing == 'collapsed':
